@@ -14,12 +14,13 @@ use hyperqueue::common::serverdir::ServerDir;
 use hyperqueue::server::client::client_rpc_loop;
 use hyperqueue::server::event::journal::EventStreamMessage;
 use hyperqueue::server::event::payload::EventPayload;
+use hyperqueue::server::event::streamer::{EventFilter, EventFilterFlags};
 use hyperqueue::server::job::JobTaskState;
 use hyperqueue::transfer::messages::{
     CancelJobResponse, CancelRequest, CloseJobRequest, CloseJobResponse, ForgetJobRequest,
     FromClientMessage, IdSelector, JobDescription, JobSubmitDescription, JobTaskDescription,
-    PinMode, SubmitRequest, SubmitResponse, TaskDescription, TaskKind, TaskKindProgram,
-    TaskWithDependencies, ToClientMessage,
+    PinMode, StreamEvents, StreamEventsMode, SubmitRequest, SubmitResponse, TaskDescription,
+    TaskKind, TaskKindProgram, TaskWithDependencies, ToClientMessage,
 };
 use hyperqueue::verif::cluster::{HqSim, new_hq_sim, running_context};
 use std::cell::RefCell;
@@ -215,6 +216,13 @@ enum Op {
     FailNext { w: u32, t: TaskId },
     Timer,
     Prune,
+    /// `hq submit --wait`: a new closed job of n equal tasks on a connection of its own, with live
+    /// job events requested; the journal flush of this submit is HELD until FlushDone
+    SubmitW { n: u32, rq: RqSpec, prio: i32 },
+    /// the journal thread answers the held flush
+    FlushDone,
+    /// what the waiting client has received so far; closes its connection
+    WaitCheck,
 }
 
 fn opt_u32(o: &Option<u32>) -> String {
@@ -254,6 +262,9 @@ fn op_sym(o: &Op) -> String {
         Op::FailNext { w, t } => format!("FAILNEXT {w} {}", tid(*t)),
         Op::Timer => "TIMER".into(),
         Op::Prune => "PRUNE".into(),
+        Op::SubmitW { n, rq, prio } => format!("SUBMITW {n} {} {prio}", rq.sym()),
+        Op::FlushDone => "FLUSHDONE".into(),
+        Op::WaitCheck => "WAITCHECK".into(),
     }
 }
 
@@ -308,6 +319,9 @@ fn parse_op(line: &str) -> Op {
         "FAILNEXT" => Op::FailNext { w: t[1].parse().unwrap(), t: parse_tid(t[2]) },
         "TIMER" => Op::Timer,
         "PRUNE" => Op::Prune,
+        "SUBMITW" => Op::SubmitW { n: t[1].parse().unwrap(), rq: RqSpec::parse(t[2]), prio: t[3].parse().unwrap() },
+        "FLUSHDONE" => Op::FlushDone,
+        "WAITCHECK" => Op::WaitCheck,
         _ => panic!("bad op {line}"),
     }
 }
@@ -319,6 +333,13 @@ struct H {
     events: Rc<RefCell<Vec<String>>>,
     /// the last prune request the journal thread received: (live jobs, live workers), sorted
     pruned: Rc<RefCell<Option<(Vec<u32>, Vec<u32>)>>>,
+    /// hold the next journal flush request (set by SUBMITW) / the held request
+    hold_flush: Rc<std::cell::Cell<bool>>,
+    held_flush: Rc<RefCell<Option<tokio::sync::oneshot::Sender<()>>>>,
+    /// the connection of the waiting client: channels, its job (known once the response arrived)
+    wait_conn: Option<(futures::channel::mpsc::UnboundedSender<tako::Result<FromClientMessage>>, futures::channel::mpsc::UnboundedReceiver<ToClientMessage>, Option<u32>)>,
+    /// jobs with a JobCompleted record in the journal
+    completed_jobs: Rc<RefCell<Vec<u32>>>,
     launch_seen: std::collections::HashMap<u32, usize>,
     out: String,
     dead: bool,
@@ -384,15 +405,28 @@ impl H {
         let ev2 = events.clone();
         let pruned: Rc<RefCell<Option<(Vec<u32>, Vec<u32>)>>> = Default::default();
         let pr2 = pruned.clone();
+        let hold_flush: Rc<std::cell::Cell<bool>> = Default::default();
+        let held_flush: Rc<RefCell<Option<tokio::sync::oneshot::Sender<()>>>> = Default::default();
+        let completed_jobs: Rc<RefCell<Vec<u32>>> = Default::default();
+        let (hold2, held2, comp2) = (hold_flush.clone(), held_flush.clone(), completed_jobs.clone());
         tokio::task::spawn_local(async move {
             while let Some(m) = journal_rx.recv().await {
                 match m {
                     EventStreamMessage::Event(e) => {
+                        if let EventPayload::JobCompleted(j) = &e.payload {
+                            comp2.borrow_mut().push(j.as_num());
+                        }
                         if let Some(s) = event_str(&e.payload) {
                             ev2.borrow_mut().push(s);
                         }
                     }
                     EventStreamMessage::FlushJournal(cb) => {
+                        if hold2.get() && held2.borrow().is_none() {
+                            // the journal thread is slow: the rest of the server runs meanwhile
+                            hold2.set(false);
+                            *held2.borrow_mut() = Some(cb);
+                            continue;
+                        }
                         let _ = cb.send(());
                     }
                     EventStreamMessage::PruneJournal { callback, live_jobs, live_workers } => {
@@ -417,7 +451,7 @@ impl H {
             let sink = resp_tx.sink_map_err(|e| tako::Error::from(format!("{e:?}")));
             client_rpc_loop(sink, req_rx, server_dir, state_ref, &senders, Arc::new(Notify::new())).await;
         });
-        H { hq, req_tx, resp_rx, events, pruned, launch_seen: Default::default(), out: String::new(), dead: false }
+        H { hq, req_tx, resp_rx, events, pruned, hold_flush, held_flush, wait_conn: None, completed_jobs, launch_seen: Default::default(), out: String::new(), dead: false }
     }
 
     async fn client(&mut self, m: FromClientMessage) -> Option<ToClientMessage> {
@@ -517,6 +551,9 @@ impl H {
             Op::Sched => sim.scheduling_flag(),
             Op::End { w, t, .. } => sim.pending_tasks(Self::wid(*w)).iter().any(|(x, _)| x == t),
             Op::FailNext { w, .. } => sim.workers.contains_key(&Self::wid(*w)),
+            Op::SubmitW { .. } => self.wait_conn.is_none(),
+            Op::FlushDone => self.held_flush.borrow().is_some(),
+            Op::WaitCheck => matches!(&self.wait_conn, Some((_, _, Some(_)))),
             _ => true,
         }
     }
@@ -691,6 +728,72 @@ impl H {
                     Op::Timer => {
                         tokio::time::advance(Duration::from_secs(3601)).await;
                     }
+                    Op::SubmitW { n, rq, prio } => {
+                        let (wtx, wrx) = futures::channel::mpsc::unbounded::<tako::Result<FromClientMessage>>();
+                        let (rtx, rrx) = futures::channel::mpsc::unbounded::<ToClientMessage>();
+                        let state_ref = this.hq.state_ref.clone();
+                        let senders = this.hq.senders.clone();
+                        let dir = tempfile::tempdir().unwrap();
+                        let server_dir = ServerDir::open(dir.path()).unwrap();
+                        tokio::task::spawn_local(async move {
+                            let _keep = dir;
+                            let sink = rtx.sink_map_err(|e| tako::Error::from(format!("{e:?}")));
+                            client_rpc_loop(sink, wrx, server_dir, state_ref, &senders, Arc::new(Notify::new())).await;
+                        });
+                        let req = SubmitRequest {
+                            job_desc: JobDescription { name: "w".into(), max_fails: None },
+                            submit_desc: JobSubmitDescription {
+                                task_desc: JobTaskDescription::Array {
+                                    ids: IntArray::from_sorted_ids(0..*n),
+                                    entries: None,
+                                    resource_rq: rq.to_rqv(),
+                                    task_desc: task_desc(*prio, &Crash::Unlimited, false),
+                                },
+                                submit_dir: "/tmp".into(),
+                                stream_path: None,
+                            },
+                            job_id: None,
+                        };
+                        let stream = StreamEvents { mode: StreamEventsMode::LiveEvents, enable_worker_overviews: false, filter: EventFilter::new(None, EventFilterFlags::JOB_EVENTS) };
+                        this.hold_flush.set(true);
+                        let _ = wtx.unbounded_send(Ok(FromClientMessage::Submit(req, Some(stream))));
+                        this.wait_conn = Some((wtx, rrx, None));
+                        resp_line = Some("= RESP submitw pending".into());
+                    }
+                    Op::FlushDone => {
+                        if let Some(cb) = this.held_flush.borrow_mut().take() {
+                            let _ = cb.send(());
+                        }
+                        settle().await;
+                        let mut line = "= RESP submit ?false".to_string();
+                        if let Some((_, rrx, job)) = this.wait_conn.as_mut() {
+                            if let Ok(Some(r)) = rrx.try_next() {
+                                if let ToClientMessage::SubmitResponse(SubmitResponse::Ok { job: j, .. }) = &r {
+                                    *job = Some(j.info.id.as_num());
+                                }
+                                line = submit_resp(Some(r));
+                            }
+                        }
+                        resp_line = Some(line);
+                    }
+                    Op::WaitCheck => {
+                        settle().await;
+                        if let Some((_, mut rrx, job)) = this.wait_conn.take() {
+                            let job = job.unwrap_or(0);
+                            let mut delivered = false;
+                            while let Ok(Some(m)) = rrx.try_next() {
+                                if let ToClientMessage::Event(e) = &m {
+                                    if let EventPayload::JobCompleted(j) = &e.payload {
+                                        if j.as_num() == job {
+                                            delivered = true;
+                                        }
+                                    }
+                                }
+                            }
+                            let completed = this.completed_jobs.borrow().contains(&job);
+                            resp_line = Some(format!("= WAIT job={job} completed={} delivered={}", completed as u32, delivered as u32));
+                        }
+                    }
                     Op::Prune => {
                         *this.pruned.borrow_mut() = None;
                         let r = this.client(FromClientMessage::PruneJournal).await;
@@ -794,9 +897,19 @@ fn random_crash(rng: &mut Rng) -> Crash {
 }
 
 async fn gen_trace(id: u64, rng: &mut Rng, tier: &str) -> String {
-    let reserve = *rng.pick(&[0u32, 1, 2, 2, 16]);
-    let maxp = *rng.pick(&[1u32, 2, 3, 3, 40]);
-    let cfg = GenCfg { steps: if tier == "thorough" { rng.range(40, 260) } else { rng.range(30, 140) }, max_workers: rng.range(1, 4) as u32, mn: rng.chance(1, 3), faults: rng.chance(3, 4) };
+    // focus mode ("prefill pressure"): one request class, many equal tasks, rising priorities, slow
+    // message delivery, several workers - reaches the retract / redirect / prefill interleavings
+    let focus = rng.chance(2, 5);
+    let reserve = if focus { *rng.pick(&[0u32, 1, 1]) } else { *rng.pick(&[0u32, 1, 2, 2, 16]) };
+    let maxp = if focus { *rng.pick(&[1u32, 2, 3]) } else { *rng.pick(&[1u32, 2, 3, 3, 40]) };
+    let cfg = GenCfg {
+        steps: if tier == "thorough" { rng.range(40, 260) } else { rng.range(30, 140) },
+        max_workers: if focus { rng.range(2, 4) as u32 } else { rng.range(1, 4) as u32 },
+        mn: !focus && rng.chance(1, 3),
+        faults: rng.chance(3, 4),
+    };
+    let deliver_w: u64 = if focus { *rng.pick(&[6u64, 10, 16]) } else { 30 };
+    let mut last_prio = 0i32;
     let mut h = H::new(reserve, maxp);
     writeln!(h.out, "TRACE {id} cluster").unwrap();
     writeln!(h.out, "C sched {reserve} {maxp}").unwrap();
@@ -821,10 +934,10 @@ async fn gen_trace(id: u64, rng: &mut Rng, tier: &str) -> String {
             for w in &wids {
                 let wid = WorkerId::new(*w);
                 if h.hq.sim.down_len(wid) > 0 {
-                    cands.push((30, Op::DDown { w: *w }));
+                    cands.push((deliver_w, Op::DDown { w: *w }));
                 }
                 if h.hq.sim.up_len(wid) > 0 {
-                    cands.push((30, Op::DUp { w: *w }));
+                    cands.push((deliver_w, Op::DUp { w: *w }));
                 }
                 for (t, stop) in h.hq.sim.pending_tasks(wid) {
                     let how = if stop.is_some() { if rng.chance(4, 5) { 2 } else { 0 } } else if cfg.faults && rng.chance(1, 6) { 1 } else { 0 };
@@ -838,7 +951,8 @@ async fn gen_trace(id: u64, rng: &mut Rng, tier: &str) -> String {
                 cands.push((25, Op::Sched));
             }
             if (wids.len() as u32) < cfg.max_workers && n_workers_ever < 6 {
-                cands.push((if wids.is_empty() { 20 } else { 3 }, Op::Connect { units: [*rng.pick(&[1u32, 2, 2, 4, 4, 8]), (rng.below(4) == 0) as u32, 0], group: rng.below(2) as u32 }));
+                let units0 = if focus { *rng.pick(&[1u32, 1, 2, 2, 4]) } else { *rng.pick(&[1u32, 2, 2, 4, 4, 8]) };
+                cands.push((if wids.is_empty() { 20 } else if focus { 6 } else { 3 }, Op::Connect { units: [units0, (rng.below(4) == 0) as u32, 0], group: rng.below(2) as u32 }));
             }
             // client requests
             let open_jobs: Vec<u32> = jobs.iter().filter(|(_, o)| *o).map(|(j, _)| *j).collect();
@@ -852,10 +966,18 @@ async fn gen_trace(id: u64, rng: &mut Rng, tier: &str) -> String {
                         None
                     } else {
                         let start = rng.below(6) as u32;
-                        let n = entries.unwrap_or(rng.range(1, 9) as u32);
+                        let n = entries.unwrap_or(if focus { rng.range(3, 12) as u32 } else { rng.range(1, 9) as u32 });
                         Some((start..start + n).collect())
                     };
-                    cands.push((submit_w, Op::Submit { job, ids, entries, rq: random_rq(rng, cfg.mn), prio: *rng.pick(&[0, 0, 0, 1, 2, -1, 5]), crash: random_crash(rng), tlim: rng.chance(1, 8), maxfails }));
+                    let (rq, prio) = if focus {
+                        // mostly the same class; priorities tend to rise (each rise disposes prefill sets)
+                        let rq = if rng.chance(4, 5) { RqSpec { nodes: 0, units: [1, 0, 0] } } else { RqSpec { nodes: 0, units: [2, 0, 0] } };
+                        let prio = if rng.chance(1, 2) { last_prio + rng.range(0, 2) as i32 } else { *rng.pick(&[0, 0, 1, 2]) };
+                        (rq, prio)
+                    } else {
+                        (random_rq(rng, cfg.mn), *rng.pick(&[0, 0, 0, 1, 2, -1, 5]))
+                    };
+                    cands.push((if focus { submit_w.max(4) } else { submit_w }, Op::Submit { job, ids, entries, rq, prio, crash: random_crash(rng), tlim: rng.chance(1, 8), maxfails }));
                 } else {
                     // small DAG; ids ascending, deps mostly on earlier ids
                     let n = rng.range(2, 7) as u32;
@@ -899,6 +1021,14 @@ async fn gen_trace(id: u64, rng: &mut Rng, tier: &str) -> String {
             if rng.chance(1, 12) {
                 cands.push((2, Op::Prune));
             }
+            if h.wait_conn.is_none() && jobs.len() < 4 && rng.chance(1, 6) {
+                cands.push((4, Op::SubmitW { n: rng.range(1, 3) as u32, rq: RqSpec { nodes: 0, units: [1, 0, 0] }, prio: *rng.pick(&[0, 1, 3]) }));
+            }
+            if h.held_flush.borrow().is_some() {
+                cands.push((3, Op::FlushDone));
+            } else if matches!(&h.wait_conn, Some((_, _, Some(_)))) {
+                cands.push((2, Op::WaitCheck));
+            }
             if cfg.faults && rng.chance(1, 10) {
                 cands.push((2, Op::Timer));
                 if let Some(w) = wids.first() {
@@ -924,7 +1054,15 @@ async fn gen_trace(id: u64, rng: &mut Rng, tier: &str) -> String {
         if h.exec(&o).await {
             match &o {
                 Op::Connect { .. } => n_workers_ever += 1,
-                Op::Submit { job: None, .. } | Op::SubmitG { job: None, .. } => {
+                Op::Submit { prio, job, .. } => {
+                    last_prio = last_prio.max(*prio);
+                    if job.is_none() {
+                        let st = h.hq.state_ref.get();
+                        jobs = st.jobs().map(|j| (j.job_id.as_num(), j.is_open)).collect();
+                        next_job = jobs.iter().map(|(j, _)| *j).max().unwrap_or(0) + 1;
+                    }
+                }
+                Op::SubmitG { job: None, .. } => {
                     // a new job id is consumed only on success; track from the state
                     let st = h.hq.state_ref.get();
                     jobs = st.jobs().map(|j| (j.job_id.as_num(), j.is_open)).collect();
@@ -938,6 +1076,10 @@ async fn gen_trace(id: u64, rng: &mut Rng, tier: &str) -> String {
         }
     }
     let _ = next_job;
+    if !h.dead {
+        h.exec(&Op::FlushDone).await;
+        h.exec(&Op::WaitCheck).await;
+    }
     writeln!(h.out, "END").unwrap();
     h.out
 }
